@@ -57,7 +57,12 @@ Record request := mkReq {
   rq_scopes : list string;     (* GetScopes() *)
   rq_nonce : string; rq_acr : string;       (* AuthRequest only *)
   rq_amr : list string;
-  rq_auth_time : Z             (* GetAuthTime(), s; 0 = zero time *)
+  rq_auth_time : Z;            (* GetAuthTime(), s; 0 = zero time *)
+  rq_actor : string            (* token exchange: GetExchangeActor(), the subject of the presented
+                                  actor_token; "" = none.  rq_sub / rq_scopes are the request's FINAL
+                                  values, after the storage's ValidateTokenExchangeRequest (which may
+                                  retarget subject and scopes); they need not be the presented
+                                  subject_token's *)
 }.
 
 Inductive rtype := RAccess | RRefresh | RIDTok.     (* requested_token_type *)
@@ -172,6 +177,12 @@ Fixpoint custom_with (v : string) (scopes : list string) : list (string * string
               | None => custom_with v r
               end
   end.
+(* refstore.GetPrivateClaimsFromTokenExchangeRequest: act = {"sub": actor} when an actor token
+   was presented (actor subjects need no JSON escaping) *)
+Definition act_json (actor : string) : string := ("{""sub"":""" ++ actor ++ """}")%string.
+Definition exchange_claims (actor : string) : list (string * string) :=
+  if actor =s "" then [] else [("act", act_json actor)].
+
 Definition custom_claims (client : string) (scopes : list string) : list (string * string) :=
   custom_with ("v-" ++ client)%string scopes.
 Definition ui_custom_claims (sub : string) (scopes : list string) : list (string * string) :=
@@ -334,7 +345,7 @@ Section Tokens.
             (match rq_aud rq with [] => [cl_id cl] | a => a end)
             exp (sec now - cl_skew cl)%Z (sec now - cl_skew cl)%Z
             (cl_id cl) tid [])
-      (if is_exchange f then []
+      (if is_exchange f then exchange_claims (rq_actor rq)
        else custom_claims (cl_id cl) (remove_userinfo (restrict (cl_drop_at cl) (rq_scopes rq)))).
 
   (* CreateBearerToken: AES-CFB of tokenID ":" subject under a fresh IV *)
